@@ -278,3 +278,213 @@ Proof.
   { unfold size. cbn [rename_tensor dims]. apply dsize_rename. exact Hr. }
   rewrite S. apply map_dim_rename; assumption.
 Qed.
+
+(* ================================================================================== *)
+(* A whole entry point: xgcm.padding.pad on a grid without face connections commutes  *)
+(* with renaming the axes (ra) and the dimensions (r).                                 *)
+(* ================================================================================== *)
+From XV Require Import Model.GridCtor.
+
+Definition respects {A} (t : tensor A) : Prop :=
+  forall e e', (forall d, e d = e' d) -> get t e = get t e'.
+
+Definition teq {A} (t1 t2 : tensor A) : Prop := dims t1 = dims t2 /\ forall e, get t1 e = get t2 e.
+
+Lemma wf_respects {A} (t : tensor A) : wf t -> respects t.
+Proof. intros W e e' H. apply W. intros d _. apply H. Qed.
+
+Lemma teq_refl {A} (t : tensor A) : teq t t.
+Proof. split; reflexivity. Qed.
+Lemma teq_trans {A} (a b c : tensor A) : teq a b -> teq b c -> teq a c.
+Proof. intros [H1 H2] [H3 H4]. split; [congruence | intros e; rewrite H2; apply H4]. Qed.
+
+Section PadRename.
+  Variable r ra : string -> string.
+  Hypothesis r_inj : injective r.
+  Hypothesis ra_inj : injective ra.
+  Context {A : Type} (dflt : A).
+
+  Lemma respects_rename (t : tensor A) : respects t -> respects (rename_tensor r t).
+  Proof. intros R e e' H. cbn [rename_tensor get]. apply R. intros d. apply H. Qed.
+
+  Lemma respects_map_dim d d' n f (t : tensor A) : respects t -> respects (map_dim dflt d d' n f t).
+  Proof.
+    intros R e e' H. cbn [map_dim get]. rewrite (H d'). f_equal. f_equal. unfold column.
+    apply map_ext. intros i. apply R. intros x. unfold upd. destruct (String.eqb x d); [reflexivity | apply H].
+  Qed.
+
+  Lemma column_rename_r (t : tensor A) d e : respects t ->
+    column (rename_tensor r t) (r d) e = column t d (fun y => e (r y)).
+  Proof.
+    intros R. unfold column, size. cbn [rename_tensor dims get]. rewrite (dsize_rename r r_inj).
+    apply map_ext. intros i. apply R. intros x. apply (upd_rename r r_inj).
+  Qed.
+
+  Lemma map_dim_rename_r d d' n f (t : tensor A) : respects t ->
+    teq (map_dim dflt (r d) (r d') n f (rename_tensor r t)) (rename_tensor r (map_dim dflt d d' n f t)).
+  Proof.
+    intros R. split.
+    - cbn [map_dim rename_tensor dims]. apply (dreplace_rename r r_inj).
+    - intros e. cbn [map_dim rename_tensor get]. rewrite (column_rename_r t d e R). reflexivity.
+  Qed.
+
+  Lemma map_dim_teq d d' n f (t1 t2 : tensor A) :
+    teq t1 t2 -> teq (map_dim dflt d d' n f t1) (map_dim dflt d d' n f t2).
+  Proof.
+    intros [H1 H2]. split.
+    - cbn [map_dim dims]. rewrite H1. reflexivity.
+    - intros e. cbn [map_dim get]. f_equal. f_equal. unfold column, size. rewrite H1.
+      apply map_ext. intros i. apply H2.
+  Qed.
+
+  Definition rename_spec (p : padspec (A:=A)) : padspec (A:=A) :=
+    {| ps_dim := r (ps_dim p); ps_rule := ps_rule p; ps_fill := ps_fill p; ps_lo := ps_lo p; ps_hi := ps_hi p |}.
+
+  Lemma pad_dim_rename_r (p : padspec (A:=A)) (t : tensor A) : respects t ->
+    teq (pad_dim dflt (rename_spec p) (rename_tensor r t)) (rename_tensor r (pad_dim dflt p t)).
+  Proof.
+    intros R. unfold pad_dim. cbn [rename_spec ps_dim ps_rule ps_fill ps_lo ps_hi].
+    assert (S : size (r (ps_dim p)) (rename_tensor r t) = size (ps_dim p) t).
+    { unfold size. cbn [rename_tensor dims]. apply (dsize_rename r r_inj). }
+    rewrite S. apply map_dim_rename_r. exact R.
+  Qed.
+
+  Lemma pad_dim_teq (p : padspec (A:=A)) (t1 t2 : tensor A) :
+    teq t1 t2 -> teq (pad_dim dflt p t1) (pad_dim dflt p t2).
+  Proof.
+    intros H. unfold pad_dim. assert (S : size (ps_dim p) t1 = size (ps_dim p) t2).
+    { unfold size. destruct H as [H _]. rewrite H. reflexivity. }
+    rewrite S. apply map_dim_teq. exact H.
+  Qed.
+
+  Lemma respects_pad_dim (p : padspec (A:=A)) (t : tensor A) : respects t -> respects (pad_dim dflt p t).
+  Proof. intros R. unfold pad_dim. apply respects_map_dim. exact R. Qed.
+
+  Lemma pad_dims_rename_r ps : forall (t t' : tensor A), respects t -> teq t' (rename_tensor r t) ->
+    teq (pad_dims dflt (map rename_spec ps) t') (rename_tensor r (pad_dims dflt ps t)).
+  Proof.
+    induction ps as [|p ps IH]; intros t t' R H; [exact H|].
+    cbn [map]. unfold pad_dims. cbn [fold_left].
+    change (fold_left (fun acc p0 => pad_dim dflt p0 acc) (map rename_spec ps) (pad_dim dflt (rename_spec p) t'))
+      with (pad_dims dflt (map rename_spec ps) (pad_dim dflt (rename_spec p) t')).
+    change (fold_left (fun acc p0 => pad_dim dflt p0 acc) ps (pad_dim dflt p t))
+      with (pad_dims dflt ps (pad_dim dflt p t)).
+    apply IH; [apply respects_pad_dim; exact R|].
+    eapply teq_trans; [apply pad_dim_teq; exact H | apply pad_dim_rename_r; exact R].
+  Qed.
+
+  (* ---- the grid and the keyword arguments ---- *)
+  Definition rename_grid (g : grid A) : grid A := map (rename_axis r ra) g.
+  Definition rename_kw {V} (k : kw V) : kw V :=
+    match k with KScalar v => KScalar v | KMap m => KMap (rename_keys ra m) end.
+
+  Lemma fold_assoc_set_rename {V} (m acc : list (string * option V)) :
+    fold_left (fun (a : list (string * option V)) q => assoc_set (fst q) (snd q) a) (rename_keys ra m) (rename_keys ra acc) =
+    rename_keys ra (fold_left (fun (a : list (string * option V)) q => assoc_set (fst q) (snd q) a) m acc).
+  Proof.
+    revert acc. induction m as [|[k v] m IH]; intros acc; [reflexivity|].
+    cbn [rename_keys map fold_left fst snd].
+    change (map (fun p : string * option V => (ra (fst p), snd p)) m) with (rename_keys ra m).
+    rewrite (assoc_set_rename ra ra_inj k v acc). apply IH.
+  Qed.
+
+  Lemma complete_kwargs_rename {V} (proj : axis A -> V) (user : kw V) (g : grid A) :
+    (forall a, proj (rename_axis r ra a) = proj a) ->
+    complete_kwargs (rename_grid g) proj (rename_kw user) = rename_keys ra (complete_kwargs g proj user).
+  Proof.
+    intros Hp. unfold complete_kwargs.
+    assert (D : map (fun a : axis A => (ax_name a, Some (proj a))) (rename_grid g) =
+                rename_keys ra (map (fun a : axis A => (ax_name a, Some (proj a))) g)).
+    { unfold rename_grid, rename_keys. rewrite !map_map. apply map_ext. intros a.
+      cbn [rename_axis ax_name fst snd]. rewrite Hp. reflexivity. }
+    assert (N : map (@ax_name A) (rename_grid g) = map ra (map (@ax_name A) g)).
+    { unfold rename_grid. rewrite !map_map. reflexivity. }
+    destruct user as [[v|]|m]; cbn [rename_kw].
+    - rewrite D. unfold map_kwargs_over_axes. rewrite N.
+      replace (map (fun a : string => (a, Some v)) (map ra (map (@ax_name A) g)))
+        with (rename_keys ra (map (fun a : string => (a, Some v)) (map (@ax_name A) g)))
+        by (unfold rename_keys; rewrite !map_map; reflexivity).
+      apply fold_assoc_set_rename.
+    - exact D.
+    - rewrite D. unfold map_kwargs_over_axes. apply fold_assoc_set_rename.
+  Qed.
+
+  Lemma words_known_rename (l : list (string * option bword)) :
+    words_known (rename_keys ra l) = words_known l.
+  Proof.
+    unfold words_known, rename_keys. induction l as [|p l IH]; [reflexivity|].
+    cbn [map forallb snd]. rewrite IH. reflexivity.
+  Qed.
+End PadRename.
+
+Section PadRename2.
+  Variable r ra : string -> string.
+  Hypothesis r_inj : injective r.
+  Hypothesis ra_inj : injective ra.
+  Context {A : Type} (dflt : A).
+
+  Definition map_res {T U} (f : T -> U) (x : res T) : res U :=
+    match x with Ok v => Ok (f v) | Err e => Err e end.
+
+  Lemma resolve_one_rename (g : grid A) dadims padding fillv ax w :
+    resolve_one dflt (rename_grid r ra g) (map r dadims) (rename_keys ra padding) (rename_keys ra fillv) (ra ax, w) =
+    map_res (rename_spec r) (resolve_one dflt g dadims padding fillv (ax, w)).
+  Proof.
+    destruct w as [lo hi]. unfold resolve_one, rename_grid.
+    rewrite (find_axis_rename r ra ra_inj g ax).
+    destruct (find_axis g ax) as [a|e]; [|reflexivity]. cbn [bind].
+    rewrite (get_position_name_rename r r_inj ra a dadims).
+    destruct (get_position_name a dadims) as [pd|e]; [|reflexivity]. cbn [bind].
+    rewrite (lookupS_rename ra ra_inj ax padding).
+    destruct (lookupS ax padding) as [b|]; [|reflexivity].
+    destruct (pad_mode b) as [rl|e]; [|reflexivity]. cbn [bind].
+    destruct rl; try reflexivity.
+    rewrite (lookupS_rename ra ra_inj ax fillv).
+    destruct (lookupS ax fillv) as [[c|]|]; reflexivity.
+  Qed.
+
+  Definition rename_widths (ws : list (string * (nat * nat))) := rename_keys ra ws.
+
+  Lemma resolve_all_rename (g : grid A) dadims padding fillv ws :
+    resolve_all dflt (rename_grid r ra g) (map r dadims) (rename_keys ra padding) (rename_keys ra fillv)
+                (rename_widths ws) =
+    map_res (map (rename_spec r)) (resolve_all dflt g dadims padding fillv ws).
+  Proof.
+    induction ws as [|[ax w] ws IH]; [reflexivity|].
+    cbn [rename_widths rename_keys map resolve_all fst snd].
+    change (map (fun p : string * (nat * nat) => (ra (fst p), snd p)) ws) with (rename_widths ws).
+    rewrite resolve_one_rename.
+    destruct (resolve_one dflt g dadims padding fillv (ax, w)) as [p|e]; [|reflexivity]. cbn [map_res bind].
+    rewrite IH. destruct (resolve_all dflt g dadims padding fillv ws) as [ps|e]; reflexivity.
+  Qed.
+
+  (* THE theorem: pad() of the renamed array on the renamed grid with the renamed arguments
+     is the renamed pad() -- same exception, or same dimensions up to renaming and the same
+     number at every point *)
+  Theorem pad_rename (g : grid A) (t : tensor A) bw boundary fill :
+    respects t ->
+    match pad dflt (rename_grid r ra g) (rename_tensor r t) (option_map rename_widths bw)
+              (rename_kw ra boundary) (rename_kw ra fill),
+          pad dflt g t bw boundary fill with
+    | Ok t1, Ok t2 => teq t1 (rename_tensor r t2)
+    | Err e1, Err e2 => e1 = e2
+    | _, _ => False
+    end.
+  Proof.
+    intros R. unfold pad.
+    rewrite (complete_kwargs_rename r ra ra_inj (@ax_boundary A) boundary g) by reflexivity.
+    rewrite (complete_kwargs_rename r ra ra_inj (@ax_fill A) fill g) by reflexivity.
+    rewrite words_known_rename.
+    destruct (negb (words_known (complete_kwargs g (@ax_boundary A) boundary))); [reflexivity|].
+    destruct bw as [ws|]; cbn [option_map]; [|apply teq_refl].
+    assert (Z : forallb (fun w : string * (nat * nat) => (fst (snd w) =? 0) && (snd (snd w) =? 0)) (rename_widths ws) =
+                forallb (fun w : string * (nat * nat) => (fst (snd w) =? 0) && (snd (snd w) =? 0)) ws).
+    { unfold rename_widths, rename_keys. induction ws as [|w ws IH]; [reflexivity|].
+      cbn [map forallb snd]. rewrite IH. reflexivity. }
+    rewrite Z. destruct (forallb _ ws); [apply teq_refl|].
+    cbn [rename_tensor dims]. rewrite (dnames_rename r).
+    rewrite resolve_all_rename.
+    destruct (resolve_all dflt g (dnames (dims t)) _ _ ws) as [ps|e]; cbn [map_res bind]; [|reflexivity].
+    apply (pad_dims_rename_r r r_inj dflt ps t (rename_tensor r t) R). apply teq_refl.
+  Qed.
+End PadRename2.
